@@ -221,7 +221,15 @@ func SpecFor(id string) PropSpec {
 
 func specFor(id string) PropSpec {
 	d := DefaultProfile()
-	s := PropSpec{ID: id, QuickRuns: 6000, ThoroughX: 40}
+	s := PropSpec{ID: id, QuickRuns: 5000, ThoroughX: 40}
+	switch id {
+	case "C15":
+		s.QuickRuns = 3500 // heal phases dominate the cost
+	case "C19":
+		s.QuickRuns = 3000 // every run is executed twice
+	case "C16":
+		s.QuickRuns = 4000 // heavy proposal load
+	}
 	one := func(p Profile, name string, mandatory ...string) PropSpec {
 		s.Profiles = []Profile{withName(p, name), withName(d, id+"-default")}
 		s.Shares = []float64{0.7, 0.3}
